@@ -62,3 +62,15 @@ Theorem C07_cluster_flip_keeps_legality : forall H sl st b flips,
   all_legal H (fst (apply_flips sl st b flips)) = true.
 Proof. exact cluster_flip_legal. Qed.
 Print Assumptions C07_cluster_flip_keeps_legality.
+
+(* with the labelling the decomposition ACTUALLY returns (proved to satisfy the validators, Proofs/DecomposeProofs.v):
+   the cluster update of a flip-symmetric table keeps every stored operator legal, no validator hypothesis *)
+From QmcV Require Import Proofs.UnconditionalPipeline.
+Theorem C07_cluster_update_keeps_legality : forall H sl st b n flips,
+  decompose sl = Some (b, n) ->
+  (forall o, In (Some o) sl -> is_edge o = false -> flip_sym H o) ->
+  (forall o, In (Some o) sl -> is_edge o = true -> edge_free H o) ->
+  all_legal H sl = true ->
+  all_legal H (fst (apply_flips sl st b flips)) = true.
+Proof. exact decomposed_flip_legal. Qed.
+Print Assumptions C07_cluster_update_keeps_legality.
